@@ -22,11 +22,11 @@ pub const C_OLS_AGREE: f64 = 32.0;
 /// ridge gradient: <= C * n * eps * kappa_s * (|Z|_F |y| + (|Z|_F^2 + alpha) |w|)  (kappa_s = 1 without normalisation)
 pub const C_RIDGE_GRAD: f64 = 64.0;
 /// ridge Cholesky vs SVD: |dw| <= C * p * eps * cond(G) |w|,  G = Z^T Z + alpha I
-pub const C_RIDGE_AGREE: f64 = 256.0;
+pub const C_RIDGE_AGREE: f64 = 512.0;
 /// predict: |pred_i - (x_i.w + b)| <= C * (p + 1) * eps * (sum_j |x_ij w_j| + |b|)
 pub const C_PREDICT: f64 = 4.0;
 /// input class of the standardisation path: the column mean exceeds this many standard deviations
-pub const LARGE_MEAN_OVER_STD: f64 = 256.0;
+pub const LARGE_MEAN_OVER_STD: f64 = 64.0;
 
 #[derive(Clone, Copy, PartialEq, Eq, Debug)]
 pub enum Solver {
@@ -246,7 +246,12 @@ fn check_predict(cx: &Ctx, comp: &str, sname: &str, f: &Fitted) {
 }
 
 /// Turns a failed fit into a violation; returns the fitted model otherwise.
-fn must_fit<'f>(cx: &Ctx, site_base: &str, class: &str, sname: &str, r: &'f FitRes) -> Option<&'f Fitted> {
+///
+/// `spectrum`: reference singular values of the matrix the solver factorises ([X 1] for least squares, the
+/// Gram matrix Z^T Z + alpha I for ridge). A panic "no convergence" of the SVD iteration is keyed by whether
+/// that spectrum contains a cluster of >= 3 singular values equal to within 1e-10 relative (input class
+/// `repeated-singular-values`) or not.
+fn must_fit<'f>(cx: &Ctx, site_base: &str, class: &str, sname: &str, r: &'f FitRes, spectrum: &dyn Fn() -> Vec<f64>) -> Option<&'f Fitted> {
     match r {
         FitRes::Ok(f) => {
             if f.w.iter().any(|v| !v.is_finite()) || !f.b.is_finite() {
@@ -262,7 +267,17 @@ fn must_fit<'f>(cx: &Ctx, site_base: &str, class: &str, sname: &str, r: &'f FitR
         }
         FitRes::Panic(p) => {
             let of = if p.is_overflow_check() { ":overflow-check" } else { "" };
-            mc::violation(format!("{}-{}:panic{}{}{}", site_base, sname, of, class, cx.sfx()), format!("{}: fit panicked: {}", (cx.label)(), p.brief()));
+            let (kind, spec_class) = if p.msg.contains("no convergence") {
+                let sv = spectrum();
+                let clustered = (0..sv.len().saturating_sub(2)).any(|i| sv[i] > 0.0 && (sv[i] - sv[i + 2]).abs() <= 1e-10 * sv[i]);
+                ("panic-no-convergence", if clustered { ":repeated-singular-values" } else { "" })
+            } else {
+                ("panic", "")
+            };
+            mc::violation(
+                format!("{}-{}:{}{}{}{}{}", site_base, sname, kind, of, class, spec_class, cx.sfx()),
+                format!("{}: fit panicked: {} (singular values of the factorised matrix: {})", (cx.label)(), p.brief(), fmt_v(&spectrum())),
+            );
             None
         }
         FitRes::BadShape(r, c) => {
@@ -307,7 +322,7 @@ pub fn check_ols(cx: &Ctx) -> Observed {
     let mut rnorms = [0.0; 2];
     for (k, solver) in [Solver::Direct, Solver::Svd].into_iter().enumerate() {
         let sname = solver_name(Model::Ols, solver);
-        let Some(f) = must_fit(cx, "ols.fit", "", sname, &fits[k]) else { continue };
+        let Some(f) = must_fit(cx, "ols.fit", "", sname, &fits[k], &|| xi.sv_a.clone()) else { continue };
         ok[k] = Some(f);
         let r = residual(&xi.x, cx.y, &f.w, f.b);
         rnorms[k] = res_norm(&r);
@@ -380,7 +395,7 @@ pub fn check_ridge(cx: &Ctx, alpha_nominal: f64, normalize: bool) -> Observed {
     let class = match (normalize, large_mean) {
         (false, _) => ":norm-off",
         (true, false) => ":norm-on",
-        (true, true) => ":norm-on:mean>256std",
+        (true, true) => ":norm-on:mean>64std",
     };
     if large_mean {
         mc::count("ridge_norm_on_large_mean_over_std");
@@ -400,7 +415,11 @@ pub fn check_ridge(cx: &Ctx, alpha_nominal: f64, normalize: bool) -> Observed {
     let mut wz_of = [Vec::new(), Vec::new()];
     for (k, solver) in [Solver::Direct, Solver::Svd].into_iter().enumerate() {
         let sname = solver_name(model, solver);
-        let Some(f) = must_fit(cx, "ridge.fit", class, sname, &fits[k]) else { continue };
+        let gram_spectrum = || {
+            let sv = if normalize { &xi.sv_z } else { &xi.sv_x };
+            sv.iter().map(|s| s * s + alpha).collect::<Vec<f64>>()
+        };
+        let Some(f) = must_fit(cx, "ridge.fit", class, sname, &fits[k], &gram_spectrum) else { continue };
         ok[k] = Some(f);
         // coefficients in the coordinates of the objective
         let wz: Vec<f64> = if normalize { f.w.iter().zip(&xi.sd).map(|(w, s)| w * s).collect() } else { f.w.clone() };
